@@ -2,7 +2,7 @@
    force (bool, option, unit, list, prod, sumbool, sumor -> OCaml types; andb/orb
    inlined); Z, positive, nat, comparison, spec_float stay Coq datatypes. *)
 From Coq Require Import Extraction ExtrOcamlBasic.
-From Rscel Require Import Base.Prims Base.F64 Model.Value Model.Ops Model.Dispatch Model.Funcs Model.Interp Model.Lexer Model.Ast Model.Parser Model.Compile Model.Context Model.Json Model.Sql Spec.Wf Spec.Arith Spec.WfCode.
+From Rscel Require Import Base.Prims Base.F64 Model.Value Model.Ops Model.Dispatch Model.Funcs Model.Interp Model.Lexer Model.Ast Model.Parser Model.Compile Model.Context Model.Json Model.Sql Model.Serde Spec.Wf Spec.Arith Spec.WfCode.
 Extraction Language OCaml.
 Extraction "../ocaml/extracted/model.ml"
   Prims.bytes_cmp F64.f64_of_bits F64.f64_to_bits
@@ -13,5 +13,5 @@ Extraction "../ocaml/extracted/model.ml"
   Parser.parse_program Parser.p_expr
   Compile.compile_source Compile.resolve
   WfCode.wf_code WfCode.code_depth
-  Sql.sql_expr Json.json_of_value Json.value_of_json Json.canon Context.run_ops Context.empty_world
+  Serde.ser_program Serde.ser_value Serde.de_value Sql.sql_expr Json.json_of_value Json.value_of_json Json.canon Context.run_ops Context.empty_world
   Wf.wf Arith.arith_spec Arith.widen Arith.num_of.
